@@ -2,6 +2,7 @@ package props
 
 import (
 	"context"
+	"encoding/binary"
 	"fmt"
 	"net"
 	"sort"
@@ -13,6 +14,7 @@ import (
 	"github.com/anacrolix/dht/v2"
 	"github.com/anacrolix/dht/v2/int160"
 	"github.com/anacrolix/dht/v2/krpc"
+	"github.com/anacrolix/dht/v2/transactions"
 	"github.com/anacrolix/torrent/iplist"
 
 	"verif/explore"
@@ -111,6 +113,8 @@ func tblPeers(sec bool) map[string]peer {
 		add("i2", sim.UDP4(23, 1, 1, 2, 4002), sim.InBucket(sim.Root, 0, 202))
 		// l1: private IP, arbitrary ID (exempt from BEP 42)
 		add("l1", sim.UDP4(10, 1, 1, 1, 4003), sim.InBucket(sim.Root, 0, 203))
+		// zl: private IP (exempt from BEP 42) claiming the all-zero ID
+		add("zl", sim.UDP4(10, 1, 1, 2, 4004), sim.ID{})
 	}
 	// special identities
 	add("self", sim.UDP4(1, 0, 4, 1, 5001), sim.Root)
@@ -144,8 +148,17 @@ type tblSys struct {
 	peers   map[string]peer
 	byKey   map[string]string // addr|idhex -> peer name
 	tletter time.Duration     // virtual time spent in T letters
-	start   time.Time
-	tidSeq  int
+	// refFailed: the reference's own view of "failed its last questionable-node ping" per
+	// addr|idhex (set by an unanswered maintenance ping, cleared by any matched response)
+	refFailed map[string]bool
+	// useImplFailed: maintenance-driven histories, where pings fail and succeed outside the letters,
+	// read the flag from the snapshot instead
+	useImplFailed bool
+	// useRefFailed is switched on while the C06 transition oracle runs: C05's agreement between
+	// API counts and entries is about the implementation's own view, C06's "bad" is the reference's
+	useRefFailed bool
+	start     time.Time
+	tidSeq    int
 }
 
 func newTblSys(cfg tblCfg) *tblSys {
@@ -206,6 +219,15 @@ func (y *tblSys) startQuery(p peer, kind string) (tid string, done chan dht.Quer
 		}
 	}
 	return "", done, false
+}
+
+func (y *tblSys) inTable(key string) bool {
+	for _, n := range y.S.VerifTable().Nodes {
+		if n.Addr+"|"+fmt.Sprintf("%x", n.Id) == key {
+			return true
+		}
+	}
+	return false
 }
 
 func (y *tblSys) settle() {
@@ -281,6 +303,14 @@ func (y *tblSys) resolve(letter string, s tblSnap) (string, bool) {
 // apply executes one letter and returns the event description.
 func (y *tblSys) apply(letter string) (ev tblEvent, err error) {
 	ev.Letter = letter
+	if y.refFailed == nil {
+		y.refFailed = map[string]bool{}
+	}
+	defer func() {
+		if ev.Responded && ev.Sender != nil {
+			delete(y.refFailed, ev.Sender.Addr.String()+"|"+fmt.Sprintf("%x", ev.SenderID))
+		}
+	}()
 	f := strings.Split(letter, ":")
 	getp := func(i int) (peer, error) {
 		if i >= len(f) {
@@ -367,6 +397,8 @@ func (y *tblSys) apply(letter string) (ev tblEvent, err error) {
 		if sent && len(f) > 2 && f[2] == "ok" {
 			y.Deliver(p.Addr, sim.Reply(tid, sim.M{"id": sim.IDStr(p.ID)}))
 			ev.Sender, ev.SenderID, ev.Admits, ev.Responded = &p, p.ID, true, true
+		} else if k := p.Addr.String() + "|" + fmt.Sprintf("%x", p.ID); y.inTable(k) {
+			y.refFailed[k] = true // only an entry that exists can be flagged
 		}
 		y.settle()
 		select {
@@ -393,6 +425,50 @@ func (y *tblSys) apply(letter string) (ev tblEvent, err error) {
 			}
 			y.Deliver(p.Addr, sim.Reply(tid, r))
 			ev.Sender, ev.SenderID, ev.Admits, ev.Responded = &p, p.ID, true, true
+		}
+		y.settle()
+		<-done
+	case "Pc": // a query to p with an already cancelled context, then a "response" echoing its transaction id
+		p, e := getp(1)
+		if e != nil {
+			return ev, e
+		}
+		// the id the query will get: ids come from a process-wide sequential (varint) counter
+		last := transactions.DefaultIdIssuer.Issue()
+		n, _ := binary.Uvarint([]byte(last))
+		var vb [binary.MaxVarintLen64]byte
+		pred := string(vb[:binary.PutUvarint(vb[:], n+1)])
+		ctx, cancel := context.WithCancel(context.Background())
+		cancel()
+		before := y.Conn.NumWrites()
+		done := make(chan struct{})
+		go func() {
+			y.S.Query(ctx, dht.NewAddr(p.Addr), "ping", dht.QueryInput{})
+			close(done)
+		}()
+		synctest.Wait()
+		for _, w := range DecodeWrites(y.Conn.WritesSince(before)) {
+			if w.Y() == "q" {
+				pred = w.T()
+			}
+		}
+		y.settle()
+		<-done
+		y.Deliver(p.Addr, sim.Reply(pred, sim.M{"id": sim.IDStr(p.ID)}))
+	case "Pblk": // our ping to p is pending when p's address is blocklisted; then p answers
+		p, e := getp(1)
+		if e != nil {
+			return ev, e
+		}
+		tid, done, sent := y.startQuery(p, "ping")
+		mask := 32
+		if p.Addr.IP.To4() == nil {
+			mask = 128
+		}
+		y.cfg.Block = append(append(Blocklist(nil), y.cfg.Block...), &net.IPNet{IP: p.Addr.IP, Mask: net.CIDRMask(mask, mask)})
+		y.S.SetIPBlockList(y.cfg.Block)
+		if sent {
+			y.Deliver(p.Addr, sim.Reply(tid, sim.M{"id": sim.IDStr(p.ID)}))
 		}
 		y.settle()
 		<-done
@@ -509,6 +585,11 @@ func (y *tblSys) refBad(n dht.VerifNode) bool {
 	if y.cfg.Security && !refSecure(n.Id, net.IP(n.IP)) {
 		return true
 	}
+	// the reference's own flag, not the implementation's (a change that forgets to clear the
+	// implementation's flag must not blind the oracle)
+	if y.useRefFailed && !y.useImplFailed {
+		return y.refFailed[n.Addr+"|"+fmt.Sprintf("%x", n.Id)]
+	}
 	return n.FailedPing
 }
 
@@ -623,6 +704,16 @@ func (y *tblSys) c05Invariant(s tblSnap) string {
 
 // c06Transition checks the admission / eviction rules on one transition.
 func (y *tblSys) c06Transition(b tblSnap, ev tblEvent, a tblSnap) string {
+	y.useRefFailed = true
+	defer func() { y.useRefFailed = false }()
+	// entries that left the table lose their flag
+	for k := range y.refFailed {
+		if _, in := a.ByKey[k]; !in {
+			if _, was := b.ByKey[k]; !was {
+				delete(y.refFailed, k)
+			}
+		}
+	}
 	var added, removed []string
 	for k := range a.ByKey {
 		if _, ok := b.ByKey[k]; !ok {
@@ -850,9 +941,9 @@ func tblAlphabet(cfg tblCfg, core bool) []string {
 	for _, r := range []string{"good", "nevr", "fail", "quest"} {
 		add("Q:@"+r, "P:@"+r+":ok", "F:@"+r)
 	}
-	add("Q:@absent", "P:@absent:ok")
+	add("Q:@absent", "P:@absent:ok", "H:@fail:n1")
 	if cfg.Security {
-		add("Q:i1", "P:i1:ok", "Q:l1")
+		add("Q:i1", "P:i1:ok", "Q:l1", "Q:zl")
 	}
 	if cfg.Block != nil {
 		add("Q:bx", "P:bx:ok")
@@ -863,6 +954,7 @@ func tblAlphabet(cfg tblCfg, core bool) []string {
 	add("A:n2", "P:n1:to", "F:n1", "F:@quest:ok", "A:@absent")
 	add("Q:c1", "P:c1:ok", "Q:self", "P:n1:as=self", "Q:zero", "P:n2:as=zero", "A:self", "A:zero")
 	add("H:@good:n1", "H:n1:n2", "U:n1", "Mm:n1", "Mm:n1:ip", "E:n1", "Qro:n1", "Pro:n1")
+	add("Pc:n1", "Pblk:n2")
 	add("A:bx", "Q:v6", "P:v6:ok")
 	if cfg.Block == nil {
 		add("Q:bx", "P:bx:ok")
